@@ -121,7 +121,7 @@ def _raising_if_nodes(g):
   return out
 
 
-def _bound_atoms(test):
+def _bound_atoms(test, f=None):
   """(index name, op class, bound text) atoms `i >= N` / `i < 0` ... of a test,
 
   normalised so that the index is on the left.
@@ -134,10 +134,13 @@ def _bound_atoms(test):
       for (a, op, b) in zip(operands, c.ops, operands[1:]):
         if type(op) not in flip:
           continue
+        # with f, a bound held in a local (n = len(view)) reads as its value
+        bt = unparse(roles.deref(f, b)) if f is not None else unparse(b)
+        at = unparse(roles.deref(f, a)) if f is not None else unparse(a)
         if isinstance(a, ast.Name):
-          out.append((a.id, type(op), unparse(b)))
+          out.append((a.id, type(op), bt))
         if isinstance(b, ast.Name):
-          out.append((b.id, flip[type(op)], unparse(a)))
+          out.append((b.id, flip[type(op)], at))
   return out
 
 
@@ -174,9 +177,23 @@ def index_bounds(ctx: Ctx, rs: RuleSet):
     if isinstance(st, ast.Assign) and any(
         isinstance(t, ast.Name) and t.id in counts for t in st.targets) and (
             not (isinstance(st.value, ast.Attribute))):
-      kinds = {x.attr for x in ast.walk(st.value) if isinstance(x, ast.Attribute)}
-      ok = {'POSITIONAL_ONLY', 'POSITIONAL_OR_KEYWORD'} <= kinds and not (
-          {'KEYWORD_ONLY', 'VAR_KEYWORD'} & kinds)
+      # the parameters counted are exactly the positional-only and
+      # positional-or-keyword ones: sum(<kind test> for ...), or a filtered
+      # comprehension that is counted with len() / sum(1 ...)
+      cond = None
+      for c in ast.walk(st.value):
+        if isinstance(c, (ast.GeneratorExp, ast.ListComp)) and len(
+            c.generators) == 1:
+          if c.generators[0].ifs:
+            cond = ast.BoolOp(op=ast.And(), values=list(c.generators[0].ifs))
+          else:
+            cond = c.elt
+      if cond is not None:
+        counted = {k for k in sigrules.KINDS
+                   if sigrules.eval3(cond, k) is True}
+        maybe = {k for k in sigrules.KINDS if sigrules.eval3(cond, k) is None}
+        ok = counted == {'POSITIONAL_ONLY', 'POSITIONAL_OR_KEYWORD'} and (
+            not maybe)
   rs.check(ok, rule, f'{f.qualname}:slot-count',
            'without *args the number of indexable slots is the number of '
            'positional-only and positional-or-keyword parameters' if ok else
@@ -217,7 +234,7 @@ def index_bounds(ctx: Ctx, rs: RuleSet):
       g.stmt[n].test) and 'isinstance' in unparse(g.stmt[n].test)]
   ok = False
   for n in _raising_if_nodes(g):
-    atoms = _bound_atoms(g.stmt[n].test)
+    atoms = _bound_atoms(g.stmt[n].test, f)
     upper = any(name == key and bound in {f'len({v})' for v in views} and (
         (op is ast.Lt) or (op is ast.GtE)) for name, op, bound in atoms)
     lower = any(name == key and bound == '0' for name, op, bound in atoms)
